@@ -28,8 +28,8 @@ Kinds == {"GetTx", "GetHeader", "GetHeaders", "ReprocessTx", "MarkInvalid", "Mar
 Slots == 0..(NCalls - 1)
 Idle == [st |-> "idle", kind |-> "", key |-> 0, res |-> "", rkey |-> -1]
 
-VARIABLES ep, acc, hs, nextId, calls, sent, order, queue, stale, srv, deliv, run, steps, act
-vars == <<ep, acc, hs, nextId, calls, sent, order, queue, stale, srv, deliv, run, steps, act>>
+VARIABLES ep, acc, hs, nextId, calls, sent, order, queue, stale, srv, deliv, run, steps, had, act
+vars == <<ep, acc, hs, nextId, calls, sent, order, queue, stale, srv, deliv, run, steps, had, act>>
 A(a, k, kind, key) == [a |-> a, k |-> k, kind |-> kind, key |-> key]
 
 MsgName(kind) == CASE kind = "GetTx" -> "get_tx" [] kind = "GetHeader" -> "get_header" [] kind = "GetHeaders" -> "get_headers"
@@ -46,26 +46,27 @@ FlushSent == [k \in Slots |-> sent[k] \/ (calls[k].st = "pending")]
 FlushStale == [i \in 1..Len(stale) |-> [stale[i] EXCEPT !.w = TRUE]]
 
 Init == /\ ep = 1 /\ acc = FALSE /\ hs = FALSE /\ nextId = 1 /\ calls = [k \in Slots |-> Idle] /\ sent = [k \in Slots |-> FALSE]
-        /\ order = <<>> /\ queue = <<>> /\ stale = <<>> /\ srv = <<>> /\ deliv = <<>> /\ run = "running" /\ steps = 0 /\ act = A("init", 0, "", 0)
+        /\ order = <<>> /\ queue = <<>> /\ stale = <<>> /\ srv = <<>> /\ deliv = <<>> /\ run = "running" /\ steps = 0 /\ had = FALSE /\ act = A("init", 0, "", 0)
 
 Step == steps < MaxSteps /\ steps' = steps + 1 /\ run = "running"
 
 Accept(v) ==
   /\ Step /\ ~acc
+  /\ (v = "replay" => had)        \* the genuine accept of an earlier connection, sent again: its key belongs to another hash
   /\ IF v = "valid"
      THEN /\ acc' = TRUE /\ UNCHANGED run
           /\ IF Full THEN UNCHANGED <<hs, srv, sent, queue, stale>>
              ELSE hs' = TRUE /\ srv' = Flush(srv) /\ sent' = FlushSent /\ queue' = <<>> /\ stale' = FlushStale
-     ELSE /\ run' = (IF v \in {"wrongkey", "otherhash"} THEN "failed:wrongkey" ELSE "failed:badsig")
+     ELSE /\ run' = (IF v \in {"wrongkey", "otherhash", "replay"} THEN "failed:wrongkey" ELSE "failed:badsig")
           /\ UNCHANGED <<acc, hs, srv, sent, queue, stale>>
-  /\ act' = A("Accept", 0, v, 0) /\ UNCHANGED <<ep, nextId, calls, order, deliv>>
+  /\ act' = A("Accept", 0, v, 0) /\ UNCHANGED <<ep, nextId, calls, order, deliv, had>>
 
 Ready(n) ==
   /\ Step /\ acc /\ Full
   /\ nextId' = (IF n = 0 THEN 1 ELSE n) /\ hs' = TRUE
   /\ srv' = Flush(Append(srv, [t |-> "ready", key |-> (IF n = 0 THEN 1 ELSE n), hs |-> TRUE])) /\ sent' = FlushSent
   /\ queue' = <<>> /\ stale' = FlushStale
-  /\ act' = A("Ready", n, "", 0) /\ UNCHANGED <<ep, acc, calls, order, deliv, run>>
+  /\ act' = A("Ready", n, "", 0) /\ UNCHANGED <<ep, acc, calls, order, deliv, run, had>>
 
 Call(k, kind, key) ==
   /\ Step /\ calls[k].st # "pending"
@@ -74,7 +75,7 @@ Call(k, kind, key) ==
   /\ order' = Append(SelectSeq(order, LAMBDA j : j # k), k)
   /\ IF hs THEN srv' = Append(srv, [t |-> MsgName(kind), key |-> WireKey(kind, key), hs |-> TRUE]) /\ sent' = [sent EXCEPT ![k] = TRUE] /\ UNCHANGED queue
           ELSE UNCHANGED srv /\ sent' = [sent EXCEPT ![k] = FALSE] /\ queue' = Append(queue, [k |-> k, kind |-> kind, key |-> key])
-  /\ act' = A("Call", k, kind, key) /\ UNCHANGED <<ep, acc, hs, nextId, stale, deliv, run>>
+  /\ act' = A("Call", k, kind, key) /\ UNCHANGED <<ep, acc, hs, nextId, stale, deliv, run, had>>
 
 \* which registered request a response for (kind, key, form) is routed to: the first in registration order, or none.
 Routable(kind, form) == ~(form = "reject" /\ kind \in {"GetHeaders", "FeeQuotes"} /\ "rejectnohash" \notin Fix)   \* rejects without a hash are dropped
@@ -101,7 +102,7 @@ Respond(k, form) ==
                    ELSE /\ UNCHANGED calls
                         /\ IF kind = "GetHeaders" /\ form # "reject"          \* headers nobody asked for are a notification
                            THEN deliv' = Append(deliv, [kind |-> "hdrs", id |-> key]) ELSE UNCHANGED deliv
-  /\ act' = A("Respond", k, form, 0) /\ UNCHANGED <<ep, acc, hs, nextId, sent, order, queue, stale, srv>>
+  /\ act' = A("Respond", k, form, 0) /\ UNCHANGED <<ep, acc, hs, nextId, sent, order, queue, stale, srv, had>>
 
 \* the service answers the (late) request of an abandoned call: the stale registration absorbs the answer
 RespondStale(i, form) ==
@@ -109,7 +110,7 @@ RespondStale(i, form) ==
   /\ \A j \in 1..(i - 1) : ~(stale[j].kind = stale[i].kind /\ (stale[j].key = stale[i].key \/ stale[i].kind = "FeeQuotes"))
   /\ stale' = IF Routable(stale[i].kind, form) THEN RemoveAt(stale, i) ELSE stale
   /\ act' = A("RespondStale", (IF form = "ok" THEN 0 ELSE 1), stale[i].kind, stale[i].key)
-  /\ UNCHANGED <<ep, acc, hs, nextId, calls, sent, order, queue, srv, deliv, run>>
+  /\ UNCHANGED <<ep, acc, hs, nextId, calls, sent, order, queue, srv, deliv, run, had>>
 
 TimeoutAll ==
   /\ Step /\ \E k \in Slots : calls[k].st = "pending"
@@ -117,7 +118,7 @@ TimeoutAll ==
   /\ LET unsent == SelectSeq(order, LAMBDA k : calls[k].st = "pending" /\ ~sent[k])
      IN /\ stale' = stale \o [i \in 1..Len(unsent) |-> [kind |-> calls[unsent[i]].kind, key |-> calls[unsent[i]].key, w |-> FALSE]]
         /\ queue' = [i \in 1..Len(queue) |-> [queue[i] EXCEPT !.k = -1]]
-  /\ act' = A("Timeout", 0, "", 0) /\ UNCHANGED <<ep, acc, hs, nextId, sent, order, srv, deliv, run>>
+  /\ act' = A("Timeout", 0, "", 0) /\ UNCHANGED <<ep, acc, hs, nextId, sent, order, srv, deliv, run, had>>
 
 Notify(kind, id) ==
   /\ Step /\ Len(deliv) < MaxNote
@@ -125,17 +126,17 @@ Notify(kind, id) ==
      THEN IF acc /\ id = nextId THEN deliv' = Append(deliv, [kind |-> kind, id |-> id]) /\ nextId' = id + 1
                                 ELSE UNCHANGED <<deliv, nextId>>
      ELSE deliv' = Append(deliv, [kind |-> kind, id |-> (IF kind = "insync" THEN 0 ELSE id)]) /\ UNCHANGED nextId
-  /\ act' = A("Notify", id, kind, 0) /\ UNCHANGED <<ep, acc, hs, calls, sent, order, queue, stale, srv, run>>
+  /\ act' = A("Notify", id, kind, 0) /\ UNCHANGED <<ep, acc, hs, calls, sent, order, queue, stale, srv, run, had>>
 
 Drop ==
   /\ Step
-  /\ ep' = ep + 1 /\ acc' = FALSE /\ hs' = FALSE /\ srv' = <<>>
+  /\ ep' = ep + 1 /\ acc' = FALSE /\ hs' = FALSE /\ srv' = <<>> /\ had' = (had \/ acc)
   /\ act' = A("Drop", 0, "", 0) /\ UNCHANGED <<nextId, calls, sent, order, queue, stale, deliv, run>>
 
 Stop == /\ Step /\ run' = "stopped" /\ act' = A("Stop", 0, "", 0)
-        /\ UNCHANGED <<ep, acc, hs, nextId, calls, sent, order, queue, stale, srv, deliv>>
+        /\ UNCHANGED <<ep, acc, hs, nextId, calls, sent, order, queue, stale, srv, deliv, had>>
 
-Next == \/ \E v \in {"valid", "wrongkey", "otherhash", "badsig", "counts"} : Accept(v)
+Next == \/ \E v \in {"valid", "wrongkey", "otherhash", "badsig", "counts", "replay"} : Accept(v)
         \/ \E n \in 0..4 : Ready(n)
         \/ \E k \in Slots, kind \in Kinds, key \in Keys : Call(k, kind, key)
         \/ \E k \in Slots, f \in {"ok", "reject", "wrongkey"} : Respond(k, f)
